@@ -99,6 +99,15 @@ Theorem C05_clear_empties : forall hash st, m_freed (ms_m st) = false -> MInv ha
 Proof. exact clear_empties. Qed.
 Print Assumptions C05_clear_empties.
 
+(* 8. the destructor log of clear and free: one release group per live entry (key copy if the map duplicates keys, then the value
+      destructor if it has one), each live entry exactly once, no entry twice, nothing that was not in the map, then the return code *)
+Theorem C05_clear_releases_each_entry_once : forall hash st, m_freed (ms_m st) = false -> MInv hash (ms_m st) -> m_len (ms_m st) <> 0 ->
+  exists seq, NoDup (List.map fst seq) /\ (forall k v, In (k, v) seq <-> Has (m_slots (ms_m st)) k v) /\
+              snd (m_step hash st MClear) = flat_map (fun kv => clear_evs (ms_m st) (fst kv) (snd kv)) seq ++ [ERet 0] /\
+              snd (m_step hash st MFree) = flat_map (fun kv => clear_evs (ms_m st) (fst kv) (snd kv)) seq ++ [ERet 0].
+Proof. exact clear_releases_each_entry_once. Qed.
+Print Assumptions C05_clear_releases_each_entry_once.
+
 (* 8. the clause "iteration ... with removal of the current entry visits every live entry exactly once" is FALSE of the
       faithful model (and of the code: known finding D12, replay corpus/C05/d12_iter_remove_wrap.txt): witness by computation *)
 Theorem C05_iterate_with_removal_refuted :
